@@ -174,7 +174,7 @@ class Engine:
                         st, r2 = proc.run_in_child(
                             _build, (plan, root, {"kind": "incremental", "edits": var["edits"], "second": "serial"},
                                      f"iref{vi}"), timeout=600)
-                        sut.write_tree(root, plan["files"])
+                        _restore_tree(root, plan["files"], var["edits"])
                         if st == "exc":
                             raise RuntimeError(f"incremental reference build failed in harness code: {r2}")
                         inc_refs[ekey] = r2
@@ -187,7 +187,7 @@ class Engine:
                     ref = inc_refs[ekey]
                 st, res = proc.run_in_child(_build, (plan, root, var, f"v{vi}"), timeout=600)
                 if var["kind"] == "incremental":
-                    sut.write_tree(root, plan["files"])
+                    _restore_tree(root, plan["files"], var["edits"])
                 if st == "exc":
                     raise RuntimeError(f"variant build failed in harness code: {res}")
                 evals += 1
@@ -395,9 +395,21 @@ def _apply_edits(root: str, edits: dict) -> list:
         if content is None:  # touch: only the modification time changes
             paths.append(p)
             continue
+        if isinstance(content, dict) and content.get("delete"):
+            if os.path.exists(p):
+                os.remove(p)
+            continue
         sut.write_tree(root, {rel: content})
         paths.append(p)
     return paths
+
+
+def _restore_tree(root: str, files: dict, edits: dict) -> None:
+    """Undo a variant's edits: remove files it added, rewrite everything else."""
+    for rel in edits:
+        if rel not in files and os.path.exists(os.path.join(root, rel)):
+            os.remove(os.path.join(root, rel))
+    sut.write_tree(root, files)
 
 
 def _gen_edits(e, files: dict, proj: dict, docnames: list) -> dict:
@@ -406,8 +418,10 @@ def _gen_edits(e, files: dict, proj: dict, docnames: list) -> dict:
     mds = [d + ".md" for d in docnames if d != "index" and d + ".md" in files]
     for _ in range(e.choice([1, 2, 3])):
         kind = e.choice(["rename_heading", "rename_and_link", "rename_and_link", "append_link", "front_matter",
-                         "include_file", "touch", "add_heading"])
+                         "include_file", "touch", "add_heading", "remove_doc", "add_doc", "swap_contents"])
         rel = e.choice(mds)
+        if isinstance(edits.get(rel), dict):
+            continue  # this document is being removed
         text = edits.get(rel) if isinstance(edits.get(rel), str) else files[rel]
         if kind == "rename_and_link" and len(mds) >= 2:
             # a heading changes in one document and another (also re-read) document links to the new slug:
@@ -415,6 +429,8 @@ def _gen_edits(e, files: dict, proj: dict, docnames: list) -> dict:
             n = e.randint(1, 99)
             edits[rel] = text.rstrip("\n") + f"\n\n## Fresh Heading {n}\n\nbody\n"
             for other in e.sample([m for m in mds if m != rel], k=min(len(mds) - 1, e.choice([1, 2]))):
+                if isinstance(edits.get(other), dict):
+                    continue
                 otext = edits.get(other) if isinstance(edits.get(other), str) else files[other]
                 relp = gd.relpath_from(other[:-3], rel[:-3])
                 edits[other] = otext.rstrip("\n") + f"\n\n[]({relp}.md#fresh-heading-{n}) [t]({relp}.md#fresh-heading-{n})\n"
@@ -436,6 +452,29 @@ def _gen_edits(e, files: dict, proj: dict, docnames: list) -> dict:
                 end = body.find("\n---", 4)
                 body = body[end + 4:].lstrip("\n") if end >= 0 else body
             edits[rel] = "---\nmyst:\n  heading_anchors: 3\n  substitutions: {key1: edited}\n---\n\n" + body
+        elif kind == "remove_doc" and len(mds) >= 3 and "index.md" not in edits:
+            # a document disappears (its per-document data must be purged); others may still link to it
+            edits[rel] = {"delete": True}
+            edits["index.md"] = "\n".join(ln for ln in files["index.md"].split("\n") if ln.strip() != rel[:-3])
+        elif kind == "add_doc" and "index.md" not in edits:
+            new_name = "added_" + str(e.randint(1, 9))
+            target = e.choice(mds)[:-3]
+            edits[new_name + ".md"] = (f"# Added Page\n\n## Usage\n\n[]({gd.relpath_from(new_name, target)}.md#usage) "
+                                       f"[x]({gd.relpath_from(new_name, target)}.md)\n\ntext[^n]\n\n[^n]: note\n")
+            edits["index.md"] = files["index.md"].replace("```\n\n", new_name + "\n```\n\n", 1) if (
+                "```\n\n" in files["index.md"]) else files["index.md"]
+            other = e.choice(mds)
+            otext = edits.get(other) if isinstance(edits.get(other), str) else files[other]
+            if isinstance(otext, str):
+                edits[other] = otext.rstrip("\n") + f"\n\n[]({gd.relpath_from(other[:-3], new_name)}.md#usage)\n"
+        elif kind == "swap_contents" and len(mds) >= 2:
+            # two documents exchange their text: everything stored per docname must follow the new content
+            other = e.choice([m for m in mds if m != rel])
+            if not isinstance(edits.get(rel), dict) and not isinstance(edits.get(other), dict):
+                a = edits.get(rel) if isinstance(edits.get(rel), str) else files[rel]
+                b = edits.get(other) if isinstance(edits.get(other), str) else files[other]
+                if gd.posix_dir(rel) == gd.posix_dir(other):  # relative links stay meaningful
+                    edits[rel], edits[other] = b, a
         elif kind == "include_file":
             inc = e.choice(proj["includes"])
             edits[inc] = "# Edited include\n\nnew text {{ key1 }}\n\n## Usage\n"
